@@ -1,10 +1,255 @@
 (* C19 - lists and pagers: selection always valid and visible, content complete.
-   Statements only; proofs live in proofs/ListsProofs.v. *)
+   Statements only; proofs live in proofs/ListsProofs.v.  The models (model/Lists.v) mirror
+   /repo after the C19 fixes; the differential run compares them with the implementation.
+
+   Vocabulary.  Dynamic (vxfw/list): [hs] = the item heights the BuilderFunc oracle answers
+   (Builder(i) is nil iff i is not an index of hs); cursor and top are Go uint (u64 wrap explicit in
+   the model); a [child] is a SubSurface of the surface returned by Draw (item index, origin row,
+   origin column, height).
+   [wf_items hs]  : heights are >= 0, their total fits a uint16 (< 65536), fewer than 2^64 items.
+   [wf_state st]  : cursor and top are uint values (0 <= . < 2^64) - true of every Go state.
+   [wf_op]        : SetCursor arguments are uint values, replacement item lists are wf_items,
+                    draw constraints are bounded (not math.MaxUint16: Draw panics by contract). *)
 From Vx Require Import base.Prelude base.ListX model.Lists proofs.ListsProofs.
 
-(* list_total, Dynamic: for every gap, cursor flag, item list (any count, any heights), state and
-   bounded viewport, Draw returns (no index goes out of range). *)
+(* ------------------------------------------------------------------------------------------ *)
+(* list_total                                                                                  *)
+(* ------------------------------------------------------------------------------------------ *)
+
+(* Dynamic.Draw returns for every gap, cursor flag, item list (any count, any heights, even
+   ill-formed ones), every state (any cursor/top/offset/pending, reachable or not) and every
+   bounded viewport: no child index is out of range. *)
 Theorem C19_dyn_draw_total : forall gap dc hs W H st,
   W <> 65535 -> H <> 65535 -> exists cs st', draw gap dc hs W H st = Ok (cs, st').
 Proof. exact draw_total. Qed.
 Print Assumptions C19_dyn_draw_total.
+
+(* ... hence no sequence of next/prev/set-cursor/wheel/pending-scroll/item-replacement/draw
+   operations panics: the model's trace has one entry per operation, all with outcome 0. *)
+Theorem C19_dyn_run_total : forall gap dc ops hs st,
+  Forall bounded_draw ops ->
+  length (dyn_run gap dc hs st ops) = length ops /\
+  Forall (fun x : dop * dobs => fst (fst (snd x)) = 0) (dyn_run gap dc hs st ops).
+Proof. exact dyn_run_total. Qed.
+Print Assumptions C19_dyn_run_total.
+
+(* widgets/list.List: from any state with a valid index, every method and Draw (any window size,
+   also empty or negative; PageUp with a non-negative page height) returns, and leaves
+   0 <= index < n (index = 0 for the empty list) and offset >= 0; after Draw into a window of
+   positive height the selected row is inside the window (offset <= index < offset + height), every
+   row r shows item offset+r cut to the width, and exactly the selected row is reversed. *)
+Theorem C19_wlist_step_total_valid_visible : forall items st op,
+  l_wf (zlen items) st -> lop_wf op ->
+  exists items' st' rows, lstep items st op = Ok (items', st', rows) /\ l_wf (zlen items') st' /\
+    match op with
+    | LDraw w h => wl_draw_obs_ok items w h (l_index st') (l_offset st') rows = true
+    | _ => True
+    end.
+Proof. exact lstep_ok. Qed.
+Print Assumptions C19_wlist_step_total_valid_visible.
+
+(* ------------------------------------------------------------------------------------------ *)
+(* index_valid (Dynamic)                                                                       *)
+(* ------------------------------------------------------------------------------------------ *)
+
+(* next/prev (method or key event), wheel events, pending scroll and Draw keep a valid cursor valid
+   (cursor < n, or cursor = 0 when n = 0); SetCursor stores its argument, item replacement leaves
+   the cursor alone (both are the application's responsibility).  [index_step_ok] says exactly this. *)
+Theorem C19_dyn_index_valid : forall gap dc hs st op hs' st' cs,
+  wf_items hs -> wf_state st ->
+  dstep gap dc hs st op = Ok (hs', st', cs) -> index_step_ok op hs st st' = true.
+Proof. exact dstep_index. Qed.
+Print Assumptions C19_dyn_index_valid.
+
+(* ------------------------------------------------------------------------------------------ *)
+(* children_contiguous                                                                         *)
+(* ------------------------------------------------------------------------------------------ *)
+
+(* Every Draw, from every state: the children are the items with consecutive indices (heights as
+   the oracle gives them), each child starts where the previous one ends plus the gap - except
+   that children inserted above the previous top item (index < top before the draw) are stacked
+   without the gap - so for gap >= 0 nothing overlaps; the gutter column goes to the cursored
+   child only; and the recorded top/offset point at the child that covers row 0. *)
+Theorem C19_dyn_children_contiguous : forall gap dc hs W H st cs st',
+  wf_items hs -> wf_state st -> draw gap dc hs W H st = Ok (cs, st') ->
+  heights_ok hs cs = true /\ consecutive cs = true /\ spacing gap (d_top st) cs = true /\
+  (0 <= gap -> no_overlap cs = true) /\
+  cols_ok dc (d_cur st) cs = true /\
+  (0 <= gap -> anchor_ok st' cs = true).
+Proof.
+  intros gap dc hs W H st cs st' Hw Hs E.
+  destruct (draw_props _ _ _ _ _ _ _ _ Hw Hs E) as ((G1 & G2 & G3) & C & _ & _ & _ & A & _).
+  repeat split; auto. intros Hg. eapply spacing_no_overlap; eauto.
+Qed.
+Print Assumptions C19_dyn_children_contiguous.
+
+(* Full statement of the property: each child starts where the previous ends plus the gap
+   (spacing_exact).  It holds when the gap is 0 or the draw inserts nothing above the top item
+   (no pending upward scroll beyond the offset, or top = 0) ... *)
+Theorem C19_dyn_children_exact_gap_partial : forall gap dc hs W H st cs st',
+  wf_items hs -> wf_state st -> draw gap dc hs W H st = Ok (cs, st') ->
+  gap = 0 \/ no_insertion st -> spacing_exact gap cs = true.
+Proof. exact draw_spacing_exact. Qed.
+Print Assumptions C19_dyn_children_exact_gap_partial.
+
+(* ... and is refuted for gap > 0 by an upward scroll (finding class gap-insert): items of height 2,
+   gap 1, scroll down 4 lines, then up 2: item 0 is inserted at row -1 and ends at row 1, where
+   item 1 starts - no gap between them. *)
+Theorem C19_dyn_children_exact_gap_refuted :
+  exists gap dc hs ops op st cs,
+    wf_items hs /\ Forall wf_op ops /\
+    last_opt (dyn_run gap dc hs d_init ops) = Some (op, (0, st, cs)) /\
+    spacing_exact gap (map child_of_tuple cs) = false.
+Proof.
+  exists 1, false, [2; 2; 2; 2], [DDraw 4 4; DSetPending 4; DDraw 4 4; DSetPending (-2); DDraw 4 4].
+  eexists _, _, _. split; [|split; [|split; [vm_compute; reflexivity|vm_compute; reflexivity]]].
+  - split; [repeat constructor; lia|split; vm_compute; reflexivity].
+  - repeat constructor; discriminate.
+Qed.
+Print Assumptions C19_dyn_children_exact_gap_refuted.
+
+(* ------------------------------------------------------------------------------------------ *)
+(* cursor_visible_after_draw                                                                   *)
+(* ------------------------------------------------------------------------------------------ *)
+
+(* After a selection change (SetCursor, or a next/prev that moved the cursor) followed by a Draw
+   with no scroll pending, the cursored item is among the children and inside the viewport: fully
+   if it fits (0 <= row, row + height <= H), otherwise it intersects it.  Preconditions on the
+   state before the draw: the cursor is an item, the scroll offset lies inside the top item
+   ([ioff]: 0 <= offset, and offset < height(top) unless 0 - what every Draw establishes when it
+   finds a child covering row 0), gap >= 0 and a viewport of positive height. *)
+Theorem C19_dyn_cursor_visible_after_draw : forall gap dc hs st op hs1 st1 cs1 W H cs st2,
+  wf_items hs -> wf_state st -> wf_op op ->
+  dstep gap dc hs st op = Ok (hs1, st1, cs1) -> is_select op st st1 = true ->
+  0 <= gap -> 0 < H -> d_pend st1 = 0 -> ioff hs1 st1 = true -> d_cur st1 < zlen hs1 ->
+  draw gap dc hs1 W H st1 = Ok (cs, st2) ->
+  cursor_visible H (d_cur st1) cs = true.
+Proof.
+  intros gap dc hs st op hs1 st1 cs1 W H cs st2 Hw Hs Hop E Hsel Hg HH Hp Hio Hc Ed.
+  destruct (dstep_wf _ _ _ _ _ _ _ _ Hw Hs Hop E) as [Hw1 Hs1].
+  eapply draw_cursor_visible with (W := W) (gap := gap) (dc := dc) (hs := hs1) (st' := st2); eauto.
+  eapply dstep_select; eauto.
+Qed.
+Print Assumptions C19_dyn_cursor_visible_after_draw.
+
+(* The precondition [ioff] is what a Draw leaves behind whenever one of its children covers row 0
+   (then top/offset are re-anchored at that child). *)
+Theorem C19_dyn_draw_establishes_ioff : forall gap dc hs W H st cs st',
+  wf_items hs -> wf_state st -> 0 <= gap -> draw gap dc hs W H st = Ok (cs, st') ->
+  (exists c, In c cs /\ covers0 c = true) -> ioff hs st' = true.
+Proof. exact draw_establishes_ioff. Qed.
+Print Assumptions C19_dyn_draw_establishes_ioff.
+
+(* ------------------------------------------------------------------------------------------ *)
+(* all of the above along operation sequences: the model never violates the trace predicate     *)
+(* that the differential run evaluates on the implementation's observations                    *)
+(* ------------------------------------------------------------------------------------------ *)
+
+Theorem C19_dyn_trace_ok : forall gap dc hs ops,
+  wf_items hs -> Forall wf_op ops ->
+  dyn_case_ok (gap, dc, hs, dyn_run gap dc hs d_init ops) = true.
+Proof.
+  intros gap dc hs ops Hw Ho. unfold dyn_case_ok.
+  apply dyn_trace_model_ok; auto; [split; simpl; lia|discriminate].
+Qed.
+Print Assumptions C19_dyn_trace_ok.
+
+Theorem C19_wlist_trace_ok : forall items ops,
+  Forall lop_wf ops -> wl_case_ok (items, wl_run items l_init ops) = true.
+Proof.
+  intros items ops Ho. unfold wl_case_ok. apply wl_trace_model_ok; auto.
+  split; [|simpl; lia]. unfold valid_index. simpl. pose proof (zlen_nonneg items). lia.
+Qed.
+Print Assumptions C19_wlist_trace_ok.
+
+(* ------------------------------------------------------------------------------------------ *)
+(* pager_complete, wrapping, pager_offset_clamped                                              *)
+(* ------------------------------------------------------------------------------------------ *)
+
+(* For every width (also 0 or negative) and every text: the laid-out lines, concatenated, are the
+   characters of the text without the newline characters - a last line without terminator included. *)
+Theorem C19_pager_complete : forall w cs, concat (layout w cs) = filter not_nl cs.
+Proof. exact layout_complete. Qed.
+Print Assumptions C19_pager_complete.
+
+(* ... no line contains a newline, and a line is broken as soon as it reaches the width: everything
+   but its last character is narrower than the width (character widths >= 0). *)
+Theorem C19_pager_lines_ok : forall w cs, wf_chars cs -> lines_ok w cs (layout w cs) = true.
+Proof. exact layout_lines_ok. Qed.
+Print Assumptions C19_pager_lines_ok.
+
+(* Draw clamps the scroll offset to the content: Offset' = max 0 (min Offset (lines - h)); so
+   0 <= Offset' <= max 0 (lines - h) for h >= 0, and every line index can be brought into a window
+   of height >= 1 by assigning it to Offset. *)
+Theorem C19_pager_offset_clamped : forall w h st,
+  let st' := snd (p_draw w h st) in
+  p_offset st' = Z.max 0 (Z.min (p_offset st) (zlen (p_lines st') - h)) /\
+  (0 <= h -> 0 <= p_offset st' <= Z.max 0 (zlen (p_lines st') - h)) /\
+  (forall j, 1 <= h -> 0 <= j < zlen (p_lines st') -> p_offset st = j ->
+             p_offset st' <= j < p_offset st' + h).
+Proof.
+  intros w h st. unfold p_draw.
+  destruct (if w =? p_width st then (p_lines st, p_width st) else (layout w (p_chars st), w)) as [lines width].
+  cbn [snd p_offset p_lines]. split; [apply p_clamp_spec|]. split.
+  - intros Hh. apply p_clamp_range; [exact Hh|apply zlen_nonneg].
+  - intros j Hh Hj ->. apply p_clamp_reach; assumption.
+Qed.
+Print Assumptions C19_pager_offset_clamped.
+
+Theorem C19_pager_trace_ok : forall cs ops,
+  wf_chars cs -> Forall pop_wf ops -> pager_case_ok (cs, p_run (p_init cs) ops) = true.
+Proof. exact pager_trace_model_ok. Qed.
+Print Assumptions C19_pager_trace_ok.
+
+(* scrollbar: for 1 <= view < total, 0 <= top <= total - view and a window of at least 1x1 the bar is
+   a non-empty contiguous run of rows inside the window starting at row floor(top*h/total). *)
+Theorem C19_sbar_ok : forall total view top w h,
+  sb_case_ok ((total, view, top, w, h), sb_rows total view top w h) = true.
+Proof. exact sb_model_ok. Qed.
+Print Assumptions C19_sbar_ok.
+
+(* ------------------------------------------------------------------------------------------ *)
+(* non-vacuity                                                                                 *)
+(* ------------------------------------------------------------------------------------------ *)
+
+Example C19_wf_example :
+  wf_items [3; 1; 2; 4; 1; 1; 3; 2] /\ wf_state d_init /\
+  Forall wf_op [DDraw 4 5; DNext; DSetCursor 6; DWheelDown; DSetItems [1; 1]; DDraw 4 5].
+Proof.
+  split; [split; [repeat constructor; lia|split; vm_compute; reflexivity]|].
+  split; [split; simpl; lia|].
+  repeat constructor; try discriminate; try (simpl; lia).
+Qed.
+
+(* the hypotheses of cursor_visible are met by a real run: SetCursor 6 scrolls item 6 (height 3)
+   to the bottom of a 5-row viewport *)
+Example C19_visible_example :
+  let hs := [3; 1; 2; 4; 1; 1; 3; 2] in
+  let st1 := set_cursor d_init 6 in
+  is_select (DSetCursor 6) d_init st1 = true /\ d_pend st1 = 0 /\ ioff hs st1 = true /\
+  d_cur st1 < zlen hs /\
+  exists cs st2, draw 0 true hs 4 5 st1 = Ok (cs, st2) /\
+                 In (mkC 6 2 0 3) cs /\ cursor_visible 5 6 cs = true.
+Proof.
+  cbv zeta. split; [reflexivity|]. split; [reflexivity|]. split; [reflexivity|]. split; [reflexivity|].
+  eexists _, _. split; [vm_compute; reflexivity|]. split; [|vm_compute; reflexivity].
+  simpl. tauto.
+Qed.
+
+(* the empty widgets/list that used to panic: End on an empty list, then Draw *)
+Example C19_wlist_empty_example :
+  l_wf (zlen (@nil text)) l_init /\
+  map snd (wl_run [] l_init [LEnd; LDraw 3 3; LDown; LPageDown 3; LDraw 3 0]) =
+  [(0, (0, 0), []); (0, (0, 0), [([], false); ([], false); ([], false)]); (0, (0, 0), []);
+   (0, (0, 0), []); (0, (0, 0), [])].
+Proof. split; [split; [reflexivity|simpl; lia]|vm_compute; reflexivity]. Qed.
+
+(* the unterminated last line that used to be dropped: "ab\ncd" at width 4 *)
+Example C19_pager_example :
+  wf_chars [([97], 1); ([98], 1); ([10], 0); ([99], 1); ([100], 1)] /\
+  layout 4 [([97], 1); ([98], 1); ([10], 0); ([99], 1); ([100], 1)] =
+  [[([97], 1); ([98], 1)]; [([99], 1); ([100], 1)]].
+Proof. split; [repeat constructor; simpl; lia|reflexivity]. Qed.
+
+Example C19_sbar_example : sb_rows 40 10 15 1 8 = [3; 4].
+Proof. reflexivity. Qed.
